@@ -86,7 +86,143 @@ func (b *bb) checkOrder(what string, c prioCfg, got []delivery) {
 	}
 }
 
+// C07 "promptly", after an idle period: a v2 discipline whose inputs stay open and silent for a
+// while and are then closed (nothing in flight) closes its output within a small fraction of the
+// silence - not after a sleep that grew with it.
+func (b *bb) idleThenClose() {
+	before := b.fails()
+	const idle = 1500 * time.Millisecond
+	hi, lo := make(chan int, 2), make(chan int, 2)
+	dsc, err := p2.New(p2.Opts[int]{Divider: divider.Fair, HandlersQuantity: 3, Inputs: map[uint]<-chan int{2: hi, 1: lo}})
+	if err != nil {
+		b.fail("C07 idle: New: %v", err)
+		return
+	}
+	hi <- 200001
+	lo <- 100001
+	for i := 0; i < 2; i++ {
+		select {
+		case it := <-dsc.Output():
+			dsc.Release(it.Priority)
+		case <-time.After(5 * time.Second):
+			b.fail("C06 idle: item %d of 2 was not delivered within 5s", i)
+		}
+	}
+	time.Sleep(idle)
+	cn := startCanary()
+	closedAt := time.Now()
+	close(hi)
+	close(lo)
+	select {
+	case _, open := <-dsc.Output():
+		took := time.Since(closedAt)
+		lag := cn.lag()
+		if open {
+			b.fail("C02 idle: an item was delivered that was never written")
+		} else if bound := 300*time.Millisecond + 3*lag; took > bound {
+			b.fail("C07 idle: the inputs stayed open and silent for %v, then both were closed (empty, nothing in flight): the output was closed only %v later (bound %v): termination is not prompt after an idle period", idle, took, bound)
+		}
+	case <-time.After(10 * time.Second):
+		cn.lag()
+		b.fail("C07 idle: the inputs were closed (empty, nothing in flight) after %v of silence, the output is still open 10s later", idle)
+	}
+	b.leakProbe("termination of v2 priority after an idle period")
+	b.note("prio2", "idle-then-close", before)
+}
+
+// Two v2 disciplines in one process, one after the other: the first terminates normally; the
+// second has an unbuffered input that stays open and idle (a rarely used high priority) next to a
+// buffered one that holds items and is closed.  The items are delivered (C02 / C06) - what one
+// discipline does when it terminates is no business of the other.
+func (b *bb) secondDiscipline() {
+	before := b.fails()
+	first := make(chan int, 1)
+	first <- 1
+	close(first)
+	d1, err := p2.New(p2.Opts[int]{Divider: divider.Fair, HandlersQuantity: 1, Inputs: map[uint]<-chan int{1: first}})
+	if err != nil {
+		b.fail("C02 second discipline: New: %v", err)
+		return
+	}
+	t1 := time.After(5 * time.Second)
+loop1:
+	for {
+		select {
+		case it, open := <-d1.Output():
+			if !open {
+				break loop1
+			}
+			d1.Release(it.Priority)
+		case <-t1:
+			b.fail("C07 second discipline: the first discipline (one item, input closed) did not terminate within 5s")
+			break loop1
+		}
+	}
+	idle := make(chan int) // unbuffered, open, nobody writes
+	busy := make(chan int, 8)
+	const n = 8
+	for i := 0; i < n; i++ {
+		busy <- 100000 + i
+	}
+	close(busy)
+	d2, err := p2.New(p2.Opts[int]{Divider: divider.Fair, HandlersQuantity: 2, Inputs: map[uint]<-chan int{5: idle, 1: busy}})
+	if err != nil {
+		b.fail("C02 second discipline: New: %v", err)
+		return
+	}
+	got := 0
+	t2 := time.After(5 * time.Second)
+loop2:
+	for got < n {
+		select {
+		case it, open := <-d2.Output():
+			if !open {
+				break loop2
+			}
+			got++
+			go d2.Release(it.Priority)
+		case <-t2:
+			break loop2
+		}
+	}
+	if got < n {
+		b.fail("C02 second discipline: %d of %d items written to the (closed) input of priority 1 were delivered within 5s; the other input (priority 5, unbuffered) is open and idle, and another v2 discipline has terminated in this process before", got, n)
+		b.fail("C06 second discipline: %d of %d items delivered within 5s although handlers release at once (an idle unbuffered input, a discipline that terminated earlier in this process)", got, n)
+	}
+	close(idle)
+	complete := got == n
+	t3 := time.After(5 * time.Second)
+loop3:
+	for {
+		select {
+		case it, open := <-d2.Output():
+			if !open {
+				break loop3
+			}
+			got++
+			if got > n {
+				b.fail("C02 second discipline: more items were delivered than were written")
+				break loop3
+			}
+			go d2.Release(it.Priority)
+		case <-t3:
+			if complete {
+				b.fail("C07 second discipline: no termination within 5s after the idle input was closed too")
+			}
+			break loop3
+		}
+	}
+	b.leakProbe("two v2 priority disciplines one after the other")
+	b.note("prio2", "second-discipline", before)
+}
+
 func (b *bb) scenarioPrio2() {
+	switch b.cycle("prio2-extra", 4) {
+	case 1:
+		b.idleThenClose()
+	case 3:
+		b.secondDiscipline()
+	}
 	before := b.fails()
 	c := b.randPrioCfg()
 	if b.cycle("prio2-few", 4) == 2 {
